@@ -1,12 +1,12 @@
-"""C09 (structural clause): hash is the hash of the ratio pair; the three ratio methods agree.
+"""C09: hash agrees with equality; as_integer_ratio is the reduced fraction.
 
 Decided: (1) <Decimal as Hash>::hash hashes exactly as_integer_ratio() (a pair of i128) into the caller's hasher;
-(2) as_integer_ratio() = (numerator(), denominator()) as terms over the uninterpreted gcd_special(x, p), with the
+(2) as_integer_ratio() = (numerator(), denominator()) = (x/g, 10^p/g) as terms over g = gcd_special(x, p), with the
 integer / zero short-cut (x, 1); (3) the assertions inside gcd_special cannot fire at its three call sites;
-(4) the denominator is positive given 1 <= gcd <= 10^p.
-NOT decided: that gcd_special computes the gcd (Stein's loop) - hence "equal values hash equally" holds modulo that.
+(4) the denominator is positive; (5) gcd_special(x, e) = gcd(|x|, 10^e): binary-gcd loop proved with a supplied
+loop invariant over the textbook gcd identities (L1, L2 - trusted).
 """
-from ..absint import Interp, Opts, Agg, Int, K, State, PanicExc, Stop, ZERO, NONZERO, POS
+from ..absint import Interp, Opts, Agg, Int, K, State, PanicExc, Stop, ZERO, NONZERO, POS, Infeasible
 from ..harness import (dec_coeff, M, SCALES_ALL, dec_val, poly_eq, show_outcome, show_poly, get_db, run_jobs)
 from ..db import span_str
 from ..poly import padd, pscale, pconst, pmul, patom, pfreeze, Atoms
@@ -33,8 +33,10 @@ def summ_gcd(I, st, args, fid):
 
 
 def run_job(job):
-    p, xcls = job
     db = get_db()
+    if job[0] == 'gcd':
+        return job_gcd(db, job)
+    p, xcls = job
     atoms = Atoms()
     lo, hi = {'neg': (-M, -1), 'zero': (0, 0), 'pos': (1, M)}[xcls]
     res = {}
@@ -83,6 +85,207 @@ def run_job(job):
     return [('B-RATIO', 'p=%d;x=%s' % (p, xcls), not bad, '; '.join(bad[:3]) or 'as_integer_ratio = (numerator, denominator) = (x/g, 10^p/g)', None)]
 
 
+# ----------------------------------------------------------------------------- the gcd loop (binary gcd of two odd numbers)
+# gcd2(A, B) is kept as a canonical term; the only facts used about gcd are the textbook identities (trusted, L1):
+#   gcd(a,b) = gcd(b,a);  gcd(a, b - a) = gcd(a, b);  gcd(a, b / 2^k) = gcd(a, b) for odd a and 2^k | b;  gcd(a, 0) = a;  gcd(a, a) = a   (a > 0)
+def gnorm(st, A, B, binds):
+    """canonical representative of gcd2(A, B) on path st under the identities L1 and the loop-invariant bindings.
+    Rewriting: subtract (gcd(a, c - a) -> gcd(a, c)); strip the most recently formed odd-part wrapper when the other side is odd
+    (gcd(a, oddpart(c)) -> gcd(a, c)); a pair bound by a loop invariant is replaced by its binding."""
+    from ..poly import pis_const, plinear_single, pthaw
+    A, B = st.norm(A), st.norm(B)
+
+    def wrapper(X):
+        ls = plinear_single(X)
+        if ls is not None and ls[1] == 1 and ls[2] == 0 and st.atoms.desc[ls[0]][0] == 'odd':
+            return ls[0]
+        return None
+    for _ in range(40):
+        key = ('gcd2', frozenset((pfreeze(A), pfreeze(B))))
+        if key in binds:
+            return binds[key]
+        if pis_const(B) == 0:
+            return ('val', pfreeze(A))
+        if pis_const(A) == 0:
+            return ('val', pfreeze(B))
+        if pis_const(st.norm(padd(A, B, -1))) == 0:
+            return ('val', pfreeze(A))
+        C = st.norm(padd(B, A))
+        if len(C) < len(B):
+            B = C
+            continue
+        C = st.norm(padd(A, B))
+        if len(C) < len(A):
+            A = C
+            continue
+        wa, wb = wrapper(A), wrapper(B)
+        cands = []
+        if wb is not None and is_odd(st, A):
+            cands.append((wb, 'B'))
+        if wa is not None and is_odd(st, B):
+            cands.append((wa, 'A'))
+        if cands:
+            w, side = max(cands)
+            inner = st.norm(pthaw(st.atoms.desc[w][1]))
+            if side == 'B':
+                B = inner
+            else:
+                A = inner
+            continue
+        break
+    return ('gcd2', frozenset((pfreeze(A), pfreeze(B))))
+
+
+def is_odd(st, P):
+    m, r = st.cong_poly(st.norm(P))
+    return (m == 0 and r % 2 == 1) or (m > 0 and m % 2 == 0 and r % 2 == 1)
+
+
+class GcdHook:
+    """loop invariant of gcd_special: u odd, u > 0, v >= 0, gcd2(u, v) = gcd2(u_entry, v_entry)"""
+
+    def __init__(self, ul, vl):
+        self.ul, self.vl = ul, vl
+
+    def pair(self, L):
+        return L.get(self.ul), L.get(self.vl)
+
+    def on_generalise(self, I, st, fr, snap_old, snap_new, gen):
+        depth = len(st.frames) - 1
+        binds = dict(st.ghost.get('gcd_binds', {}))
+        g = None
+        for snap in (snap_old, snap_new):
+            u, v = self.pair(snap['frames'][depth][1])
+            if not (isinstance(u, Int) and isinstance(v, Int)):
+                raise Stop('gcd hook: u / v are not integers')
+            if not (is_odd(st, u.p) and st.sign(u.p) <= POS and st.sign(v.p) <= frozenset((0, 1))):
+                st.ghost['hook_msg'] = 'base case: u odd, u > 0, v >= 0 does not hold at the loop head'
+                raise Stop('gcd hook: ' + st.ghost['hook_msg'])
+            gi = gnorm(st, u.p, v.p, binds)
+            if g is not None and gi != g:
+                st.ghost['hook_msg'] = 'gcd2(u, v) differs between two arrivals at the loop head'
+                raise Stop('gcd hook: ' + st.ghost['hook_msg'])
+            g = gi
+        U, V = self.pair(fr.L)
+        from ..poly import plinear_single
+        for x in (U, V):
+            if not isinstance(x, Int):
+                raise Stop('gcd hook: generalised u / v lost')
+        lu = plinear_single(st.norm(U.p))
+        if lu is not None and lu[1] == 1 and lu[2] == 0 and lu[0] in gen['atoms']:
+            st.cong[lu[0]] = (2, 1)                 # invariant: u odd
+            st.assume(U.p, POS)
+        st.assume(V.p, frozenset((0, 1)))
+        binds[gnorm(st, U.p, V.p, {})] = g
+        st.ghost['gcd_binds'] = binds
+        st.ghost['gcd_G'] = g
+        st.ghost['gcd_UV'] = (pfreeze(st.norm(U.p)), pfreeze(st.norm(V.p)))
+
+    def on_rearrival(self, I, st, fr, gen):
+        u, v = self.pair(fr.L)
+        binds = st.ghost.get('gcd_binds', {})
+        if not (isinstance(u, Int) and isinstance(v, Int)):
+            return False
+        if not (is_odd(st, u.p) and st.sign(u.p) <= POS and st.sign(v.p) <= frozenset((0, 1))):
+            st.ghost['hook_msg'] = 'one loop iteration does not preserve "u odd, u > 0, v >= 0"'
+            return False
+        g = gnorm(st, u.p, v.p, binds)
+        if g != st.ghost.get('gcd_G'):
+            st.ghost['hook_msg'] = 'one loop iteration does not preserve gcd(u, v): %s' % (g,)
+            return False
+        return True
+
+
+def job_gcd(db, job):
+    _, e, xcls = job
+    fn = db.fns.get(GCD)
+    if fn is None:
+        return [('G-GCD-LOOP', 'e=%d;x=%s' % (e, xcls), False, 'gcd_special not found', None)]
+    names = {n: l for l, n in fn.get('names', [])}
+    ul, vl = names.get('u'), names.get('v')
+    if ul is None or vl is None:
+        # fall back: the two i128 locals passed to mem::swap
+        for bi, t, b in mir.iter_calls(fn):
+            if (mir.callee(t)[1] or '').endswith('mem::swap'):
+                du = mir.DefUse(fn)
+                o = [mir.origin(fn, a, du) for a in t['args']]
+                loc = [n[1][1] for n in o if n[0] == 'ref' and n[1][0] == 'local']
+                if len(loc) == 2:
+                    ul, vl = loc
+    if ul is None or vl is None:
+        return [('G-GCD-LOOP', 'e=%d;x=%s' % (e, xcls), False, 'cannot identify the loop variables u and v of gcd_special', None)]
+    opts = Opts(max_paths=5000)
+    opts.unroll_loops = False
+    opts.loop_delay = 1
+    opts.loop_candidates = False
+    opts.loop_hooks = {GCD: GcdHook(ul, vl)}
+    I = Interp(db, opts)
+    st = I.new_state()
+    lo, hi = {'neg': (-M, -1), 'pos': (1, M)}[xcls]
+    x = st.sym('x', lo, hi)
+    I.call_root(st, fn, [x, K(e, 'u32')])
+    outs = I.explore(st)
+    bad = []
+    from ..poly import pneg, plinear_single, pthaw, pis_const
+    absx = x.p if xcls == 'pos' else pneg(x.p)
+    nret = 0
+    for o in outs:
+        s = o.state
+        if o.kind != 'ret' or not isinstance(o.value, Int):
+            bad.append(show_outcome(o)[:300])
+            continue
+        nret += 1
+        # expected: 2^min(tz(|x|), e) * gcd2(oddpart(|x|), 5^e)
+        tz = s.atoms.lookup(('tz', pfreeze(absx), 128))
+        odd = s.atoms.lookup(('odd', pfreeze(absx)))
+        if tz is None:
+            bad.append('trailing_zeros(|numer|) never formed')
+            continue
+        u0 = patom(odd) if odd is not None else absx      # |x| already odd on this path
+        G0 = gnorm(s, u0, pconst(5 ** e), {})
+        R = s.norm(o.value.p)
+        ls = plinear_single(R)
+        Up = None
+        kdesc = None
+        if ls is not None and ls[2] == 0 and s.atoms.desc[ls[0]][0] == 'shl' and ls[1] == 1:
+            d = s.atoms.desc[ls[0]]
+            Up, kdesc = pthaw(d[1]), pthaw(d[2])
+            # shift amount must be tz(|x|) and tz <= e on this path
+            if not (pis_const(s.norm(padd(kdesc, patom(tz), -1))) == 0 and s.sign(padd(patom(tz), pconst(e), -1)) <= frozenset((-1, 0))):
+                bad.append('shift amount is not min(tz, e): %s' % show_poly(s, kdesc))
+        else:
+            # 2^k * U with constant k: k must be min(tz, e) decided on the path
+            tzlo, tzhi = s.range_of(patom(tz))
+            k = None
+            if tzlo is not None and tzlo >= e:
+                k = e
+            elif tzlo is not None and tzlo == tzhi:
+                k = min(tzlo, e)
+            if k is None or any(c % (2 ** k) for c in R.values()):
+                bad.append('result %s is not 2^min(tz,e) * u' % show_poly(s, R))
+                continue
+            Up = {m_: c // (2 ** k) for m_, c in R.items()}
+        if Up is None:
+            continue
+        # the returned u must be the gcd: on an exit path v == 0, so gcd2(u, v) = u; the invariant binds gcd2(u, v) to G0
+        binds = s.ghost.get('gcd_binds', {})
+        UV = s.ghost.get('gcd_UV')
+        ok = False
+        if UV is not None:
+            Uf, Vf = dict(UV[0]), dict(UV[1])
+            if pis_const(s.norm(padd(Up, Uf, -1))) == 0 and s.sign(Vf) == ZERO and s.ghost.get('gcd_G') == G0:
+                ok = True
+        if not ok:
+            # exit before any generalisation: direct computation
+            if gnorm(s, Up, pconst(0), {}) == G0 or G0 == ('val', pfreeze(s.norm(Up))):
+                ok = True
+        if not ok:
+            bad.append('returned u = %s is not bound to gcd2(oddpart|x|, 5^%d) = %s' % (show_poly(s, Up), e, str(G0)[:120]))
+    if nret == 0:
+        bad.append('no returning path')
+    return [('G-GCD-LOOP', 'e=%d;x=%s' % (e, xcls), not bad, '; '.join(bad[:3]) or 'paths=%d: returns 2^min(tz,e) * gcd2(oddpart|x|, 5^e); invariant inductive' % len(outs), span_str(fn.get('span')) if bad else None)]
+
+
 def run(rep, tier):
     db = get_db()
     rep.tree_hash = db.tree_hash
@@ -105,8 +308,12 @@ def run(rep, tier):
            site=span_str(fn.get('span')) if fn else None)
     # Hash must not be derived / implemented for anything else that would bypass it: PartialEq and Hash agree only through the ratio
     jobs = [(p, xc) for p in SCALES_ALL for xc in ('neg', 'zero', 'pos')]
+    jobs += [('gcd', e, xc) for e in range(1, 19) for xc in ('neg', 'pos')]
+    if tier == 'thorough':
+        jobs += [('gcd', e, xc) for e in range(19, 39) for xc in ('neg', 'pos')]
     run_jobs(rep, __name__, jobs)
     rep.floor('B-RATIO', 57)
+    rep.floor('G-GCD-LOOP', 36)
     # who calls gcd_special: only the three ratio methods
     callers = set()
     for f in db.fns.values():
@@ -116,9 +323,13 @@ def run(rep, tier):
                 callers.add(f['id'])
     want = set(x['id'] for x in [db.find_impl_fn(T_RATIO, ['Decimal'], m) for m in ('as_integer_ratio', 'numerator', 'denominator')] if x)
     rep.ob('R-WHO-CALLS-GCD', 'callers', callers == want, 'gcd_special is called by %s' % sorted(callers))
-    rep.assume('CONTRACT G (assumed, NOT decided): gcd_special(x, p) returns gcd(|x|, 10^p) for x != 0, p <= 38 (binary gcd loop); '
-               'reducedness of the fraction and "equal values hash equally" hold modulo this contract')
-    rep.explanation = ('Clause decided: Hash::hash is, by MIR shape, exactly as_integer_ratio().hash(state); for all 19 scales x sign classes the three ratio methods return the same terms '
-                       '(x / g, 10^p / g) over the uninterpreted g = gcd_special(x, p) (shared atom table across the three runs), (x, 1) for integral representations and zero; the '
-                       'assertions of gcd_special cannot fire at its call sites; the denominator is positive. Not decided: the gcd loop itself.')
+    rep.trust('L1 (textbook identities used by the gcd-loop proof): gcd(a,b) = gcd(b,a); gcd(a, b-a) = gcd(a,b); gcd(a, b/2^k) = gcd(a,b) for odd a and 2^k | b; gcd(a,0) = gcd(a,a) = a')
+    rep.trust('L2: gcd(2^s * u, 2^e * w) = 2^min(s,e) * gcd(u, w) for odd u, w  (so 2^min(tz|x|, e) * gcd(oddpart|x|, 5^e) = gcd(|x|, 10^e))')
+    rep.explanation = ('Hash::hash is, by MIR shape, exactly as_integer_ratio().hash(state); for all 19 scales x sign classes the three ratio methods return the same terms '
+                       '(x / g, 10^p / g) over g = gcd_special(x, p) (shared atom table across the three runs), (x, 1) for integral representations and zero; the assertions of '
+                       'gcd_special cannot fire at its call sites; the denominator is positive. G-GCD-LOOP: gcd_special itself is interpreted for every exponent (quick 1..18, thorough 1..38) '
+                       'and both signs with a specification-supplied loop invariant (u odd, u > 0, v >= 0, gcd(u,v) = gcd(u_entry, v_entry)) that is checked to hold at the loop head and to be '
+                       'preserved by one iteration from an arbitrary invariant state (rewriting with the identities L1 over the terms oddpart(x) = x >> x.trailing_zeros()); on exit v = 0, hence '
+                       'the function returns 2^min(tz|x|, e) * gcd(oddpart|x|, 5^e), which is gcd(|x|, 10^e) by L2. Given that g is the gcd, (x/g, 10^p/g) is the reduced fraction with a '
+                       'positive denominator, unique per value - so equal values hash identically.')
     rep.trust('rustc nightly MIR; absint transfer functions; core\'s Hash impl for tuples and integers')
